@@ -54,8 +54,8 @@ def cached_flag_histories(rnd):
 
 
 def make_cases(rnd, tier, progs):
-    n = 330 if tier == "quick" else 3000
-    ps = progs(40 if tier == "quick" else 200) + flag_shape_programs()
+    n = 600 if tier == "quick" else 8000
+    ps = progs(100 if tier == "quick" else 500) + flag_shape_programs()
     out = []
     for k in range(n):
         src = ps[k % len(ps)]
